@@ -88,7 +88,7 @@ func attrsString(a map[string]string) string {
 	return b.String()
 }
 
-// ttmlDenote writes everything but the cue times (they are compared numerically, with a tolerance)
+// ttmlDenote writes everything but the cue times (they are compared numerically, see ttmlCheckTimes)
 func ttmlDenote(m ttmlModel) string {
 	var b strings.Builder
 	fmt.Fprintf(&b, "title=%q copyright=%q lang=%q framerate=%d\n", m.Title, m.Copyright, m.Lang, m.FrameRate)
@@ -139,6 +139,15 @@ func pad2(v int64) string { return fmt.Sprintf("%02d", v) }
 
 // ttmlGenTime picks a syntax and an instant exactly expressible in it
 func ttmlGenTime(r *fw.Rand, m *ttmlModel, base int64) ttmlTime {
+	t := ttmlGenTime0(r, m, base)
+	if !strings.Contains(t.Expr, ":") && r.P(1, 5) {
+		// an offset time is <digits>[.<digits>]<metric>: zeros in front change nothing (fixed-width exports)
+		t.Expr = strings.Repeat("0", r.Range(1, 4)) + t.Expr
+	}
+	return t
+}
+
+func ttmlGenTime0(r *fw.Rand, m *ttmlModel, base int64) ttmlTime {
 	for {
 		switch r.Intn(9) {
 		case 0: // hh:mm:ss
@@ -911,12 +920,14 @@ func ttmlCheckTimes(m ttmlModel, got []ttmlTimes) string {
 	for k, c := range m.Cues {
 		for j, p := range [][2]interface{}{{c.Begin, got[k].Begin}, {c.End, got[k].End}} {
 			t, g := p[0].(ttmlTime), p[1].(int64)
-			tol := int64(1000)
-			if t.Exact {
-				tol = 0
+			// the instant the expression means, at the resolution of time.Duration: the value itself when it is a whole
+			// number of nanoseconds, else one of its two neighbours (the statement does not fix a rounding direction)
+			lo := new(big.Int).Div(t.Val.Num(), t.Val.Denom())
+			hi := new(big.Int).Set(lo)
+			if !t.Val.IsInt() {
+				hi.Add(hi, big.NewInt(1))
 			}
-			diff := new(big.Rat).Sub(new(big.Rat).SetInt64(g), t.Val)
-			if diff.Abs(diff).Cmp(new(big.Rat).SetInt64(tol)) > 0 {
+			if gi := big.NewInt(g); gi.Cmp(lo) < 0 || gi.Cmp(hi) > 0 {
 				return fmt.Sprintf("cue %d %s %q resolves to %d ns, it means %s ns", k, []string{"begin", "end"}[j], t.Expr, g, t.Val.FloatString(3))
 			}
 		}
@@ -1031,7 +1042,7 @@ func init() {
 	fw.Register(&fw.Property{
 		ID:    "C03",
 		Level: "exploration",
-		Rule: "reader cases: a random ground-truth TTML model (0..6 paragraphs with begin/end, 0..5 styles whose parent links form an arbitrary forest incl. several children per parent and children declared before parents, 0..3 regions, subsets of the 24 tts:* attributes on styles/regions/paragraphs/spans, title, copyright, one of the five mapped languages with or without a sub-tag, frameRate in {absent,24,25,30,50,60}, tickRate in {absent,1,1000,90000,10^7}); every boundary is written in a random equivalent time-expression syntax (hh:mm:ss, hh:mm:ss.f{1,3}, hh:mm:ss:ff, N[.NNN]h/m/s, N[.NNN]ms, Nf, Nt) and its exact rational value is the oracle (exact for clock times, +-1 us where the library goes through float64); 3 renderings each (indentation none/2/4/tab placed next to <br/> and <p> only, br as <br/>, <br></br>, <BR/>, <br />, between spans or inside a span, bare text or spans, element prefix none/tt:/x:, tts:/ttp: prefixes or none, xml:id or id, xml:lang or lang, quote style, XML declaration, two divs, comments, CDATA). " +
+		Rule: "reader cases: a random ground-truth TTML model (0..6 paragraphs with begin/end, 0..5 styles whose parent links form an arbitrary forest incl. several children per parent and children declared before parents, 0..3 regions, subsets of the 24 tts:* attributes on styles/regions/paragraphs/spans, title, copyright, one of the five mapped languages with or without a sub-tag, frameRate in {absent,24,25,30,50,60}, tickRate in {absent,1,1000,90000,10^7}); every boundary is written in a random equivalent time-expression syntax (hh:mm:ss, hh:mm:ss.f{1,3}, hh:mm:ss:ff, N[.NNN]h/m/s, N[.NNN]ms, Nf, Nt) also with zeros in front of an offset time, and its exact rational value is the oracle: the reader must return that instant when it is a whole number of nanoseconds, else one of the two neighbouring nanoseconds; 3 renderings each (indentation none/2/4/tab placed next to <br/> and <p> only, br as <br/>, <br></br>, <BR/>, <br />, between spans or inside a span, bare text or spans, element prefix none/tt:/x:, tts:/ttp: prefixes or none, xml:id or id, xml:lang or lang, quote style, XML declaration, two divs, comments, CDATA). " +
 			"writer cases: models built from the public types (incl. white-space-only runs, TAB, U+0085, U+2028, ]]>, quotes, literal character references), written with indent in {\"\",\" \",4 spaces,tab,default}, decoded by the harness's encoding/xml token walk and by the library reader; styles (with parents), regions, metadata, per-rune style/attributes and ms times must equal the model. sweep cases: every block of 256 code points (quick: the BMP and one block per other plane; thorough: all 4352 blocks) written as cue text, 32 characters to a cue, and read back unchanged (white space, controls and the markup characters of the format left out). distinct_nontrivial = distinct documents compared.",
 		Assumptions: []string{"paragraphs have begin and end; no nested spans, no dur/time containers; integer f and t values", "indentation is never placed between a text node and an inline span (XML white-space semantics would be ambiguous there); no LF/CR inside a run"},
 		Cases:       func(tier string) int64 { return 2*n(tier) + sweepBlocks(tier) },
